@@ -1077,7 +1077,12 @@ KEYS_NAMED = ["escape", "c-a", "c-b", "c-c", "c-d", "c-e", "c-f", "c-g", "c-h", 
               "c-s-left", "c-s-right", "c-s-home", "c-s-end", "f1", "f4", "<flush>", "<paste:p q\nr>", "<paste:>"]
 ALL_KEYS = KEYS_PRINT + KEYS_NAMED
 PAIR_KEYS = list("aw (\"'05$^%}>~@qdcyipuJGgjlefFtrRsoOvV/?*;|IACDxX.") + KEYS_NAMED
-HISTS = [[], ["one", "two words"], ["a\nb", "", "x  y", "世界 (z)"]]
+HISTS = [[], ["one", "two words"], ["a\nb", "", "x  y", "世界 (z)"], ["   "], ["ls -l", " \t ", "echo 'a b' \"c d\" e"],
+         ["x", "", "  ", "cmd arg1 arg2 arg3"]]
+# histories for the history-reading commands (yank-last-arg / yank-nth-arg): entries with 0, 1, 2, 3 words,
+# blank-only entries, quoted words, multi-line entries
+YANK_HISTS = [["   "], ["\t \n"], ["one"], ["ls -l"], ["cmd a1 a2 a3"], ["echo 'a b' \"c d\" e"], ["x", "  ", "ls -l"],
+              ["", "two words"], ["a\nb c", "   ", "'q"]]
 CLIPS = [(None, "CHARACTERS"), ("clip", "CHARACTERS"), ("li\nne", "CHARACTERS"), ("", "CHARACTERS"),
          ("whole line", "LINES"), ("bl\nck", "BLOCK")]
 DOCS = ["", "a", "ab cd", "a\n\nb", "\n", "世界 x", "  (a.b) 'q'\n\tz", "x\n", "\nx", "ab\ncd\nef"]
@@ -1119,7 +1124,9 @@ SNIPPETS = [["escape", "<flush>"], ["\"", "a", "y", "w"], ["\"", "a", "p"], ["q"
             ["right", "right"], ["left", "x"], ["c-x", "c-l"], ["c-o", "5", "c-n"], ["c-o", "3", "down"],
             ["escape", "5", "down"], ["escape", "4", "up"], ["c-i", "c-i"], ["c-n", "c-n"], ["c-p", "c-p"], ["v", "i", "w"], ["v", "a", "("], ["V", "j", "d"], ["d", "d"],
             ["c", "w"], ["y", "y", "p"], ["/", "a", "c-m"], ["?", "b", "c-m"], ["c-r", "a"], ["c-s", "a"],
-            ["escape", "3"], ["escape", "-"], ["c-u"], ["c-x", "("], ["c-x", ")"], ["c-x", "e"], ["c-x", "c-x"],
+            ["escape", "3"], ["escape", "-"], ["escape", "_"], ["escape", "-", "escape", "5", "escape", "."],
+            ["escape", "-", "5", "escape", "c-y"], ["escape", "0", "escape", "."], ["escape", "7", "escape", "c-y"],
+            ["escape", ".", "escape", "."], ["escape", "-", "2", "escape", "_", "escape", "_"], ["c-u"], ["c-x", "("], ["c-x", ")"], ["c-x", "e"], ["c-x", "c-x"],
             ["c-@", "c-e", "c-w"], ["c-@", "c-c"], ["c-k", "a", ":"], ["c-k", "a"], ["c-o", "d", "w"], ["g", "g"],
             ["g", "u", "w"], ["g", "~", "$"], ["g", "?", "?"], [">", ">"], ["<", "<"], ["g", "q", "q"], ["R", "x"],
             ["r", "z"], ["c-q", "escape"], ["c-v", "escape"], ["escape", "c-m"], ["c-i"], ["c-n"], ["c-p"],
@@ -1236,6 +1243,7 @@ def gen_keys_cases(tier, rng):
     else:
         out += rng.sample(grammar, 250) + rng.sample(negarg, 400)
         out += blk_core + rng.sample(blk_more, 200) + comp_core + rng.sample(comp_more, 300)
+    out += gen_yank_cases(tier, rng)
     out += gen_skeleton_cases(tier, rng)
     nrand = 1200 if tier == "quick" else 30000
     for _ in range(nrand):
@@ -1251,6 +1259,35 @@ def gen_keys_cases(tier, rng):
             ops = ["escape", "<flush>"] + ops
         out.append(keys_case(vi, ml, rng.random() < 0.12, text, cur, rng.choice(HISTS), rng.choice(CLIPS), ops,
                              hs=rng.random() < 0.2, sug=rng.random() < 0.15, val=rng.random() < 0.15))
+    return out
+
+
+def gen_yank_cases(tier, rng):
+    """Emacs history-reading commands: M-. / M-_ (yank-last-arg), M-C-y (yank-nth-arg), repeated (wrap-around
+    through the history), each with no / positive / zero / negative / oversized numeric argument (M-- followed by
+    digits, M-<n>), over histories whose entries have 0, 1, 2, 3 words, only blanks, quoted words"""
+    out = []
+    cmds = [["escape", "."], ["escape", "_"], ["escape", "c-y"]]
+    args = [[], ["escape", "-"], ["escape", "0"], ["escape", "1"], ["escape", "2"], ["escape", "9"],
+            ["escape", "-", "1"], ["escape", "-", "5"], ["escape", "-", "escape", "5"], ["escape", "1", "2"],
+            ["escape", "-", "escape", "2"]]
+    for hist in YANK_HISTS:
+        for cmd in cmds:
+            for arg in args:
+                for rep in (1, 2, 4):
+                    if tier == "quick" and rep == 2:
+                        continue
+                    ops = []
+                    for i in range(rep):
+                        ops += (arg if i == 0 or rep == 2 else []) + cmd
+                    out.append(keys_case(False, len(hist) % 2 == 0, False, "ab c", 2, hist, CLIPS[0], ops + ["x", "c-_"]))
+    # mixed: argument only before a later repetition, another command in between, read-only buffer, Vi insert mode
+    for hist in YANK_HISTS:
+        for cmd in cmds:
+            out.append(keys_case(False, False, False, "", 0, hist, CLIPS[0], cmd + ["escape", "-", "3"] + cmd + cmd))
+            out.append(keys_case(False, False, False, "q", 1, hist, CLIPS[0], cmd + ["left"] + cmd + ["escape", "5"] + cmd))
+            out.append(keys_case(False, True, True, "ro", 1, hist, CLIPS[0], ["escape", "-"] + cmd + cmd))
+            out.append(keys_case(False, False, False, "w", 1, hist, CLIPS[0], ["escape", "<"] + cmd + ["escape", ">"] + cmd))
     return out
 
 
